@@ -170,6 +170,10 @@ func createASTTypeExpr(pkg string, t types.Type, varPool *VarPool, imports map[s
 		if err != nil {
 			return nil, fmt.Errorf("chan element: %w", err)
 		}
+		if elem, ok := typ.Elem().(*types.Chan); ok && elem.Dir() == types.RecvOnly && typ.Dir() != types.RecvOnly {
+			// "chan <-chan T" would be read as "chan<- chan T": parenthesize
+			expr = &ast.ParenExpr{X: expr}
+		}
 
 		return &ast.ChanType{
 			Dir:   dir,
